@@ -426,6 +426,11 @@ pub enum Kind {
         req: u32,
         source: Src,
     },
+    /// the caller dropped the future of a request it had started (no reply will be observed)
+    CtlAbandon {
+        client: u32,
+        req: u32,
+    },
     CtlReply {
         client: u32,
         req: u32,
@@ -464,6 +469,13 @@ pub enum Kind {
     },
     /// C17: a request built directly with the client's RequestBuilder (update check + event on
     /// the same app, which the state machine never sends) answered by the mock
+    /// an event-only report sent directly while a cohort assertion is configured in the mock
+    MockDirectEvent {
+        apps: Vec<String>,
+        answered_apps: Vec<String>,
+        parses: bool,
+        failure: Option<String>,
+    },
     MockDirect {
         apps: Vec<(String, bool)>,
         doc: Option<Value>,
